@@ -303,6 +303,8 @@ type refEnv struct {
 	err     error
 	retVal  *refVal
 	retFlag bool
+	brk     bool // break / continue in progress (innermost loop)
+	cont    bool
 }
 
 type refResult struct {
@@ -360,7 +362,7 @@ func (e *refEnv) fail(f string, a ...any) {
 
 func (e *refEnv) block(list []ast.Stmt) {
 	for _, s := range list {
-		if e.err != nil || e.retFlag {
+		if e.err != nil || e.retFlag || e.brk || e.cont {
 			return
 		}
 		e.stmt(s)
@@ -496,6 +498,11 @@ func (e *refEnv) stmt(s ast.Stmt) {
 			e.push()
 			e.block(x.Body.List)
 			e.pop()
+			if e.brk { // break leaves the innermost loop, the post statement is not run
+				e.brk = false
+				break
+			}
+			e.cont = false // continue goes on with the post statement
 			if x.Post != nil {
 				e.stmt(x.Post)
 			}
@@ -510,6 +517,15 @@ func (e *refEnv) stmt(s ast.Stmt) {
 			e.retVal = &v
 		}
 		e.retFlag = true
+	case *ast.BranchStmt:
+		switch x.Tok {
+		case token.BREAK:
+			e.brk = true
+		case token.CONTINUE:
+			e.cont = true
+		default:
+			e.fail("unsupported branch statement %s", x.Tok)
+		}
 	default:
 		e.fail("unsupported statement %T", s)
 	}
@@ -1013,6 +1029,7 @@ func features(src string) []string {
 		}
 	}
 	var walk func(list []ast.Stmt, depth int)
+	var loops []bool // enclosing for statements: has a post statement
 	incdec := func(x *ast.IncDecStmt, depth int) {
 		if id, ok := x.X.(*ast.Ident); ok {
 			f["incdec-"+kindOf(id.Name)] = true
@@ -1070,7 +1087,14 @@ func features(src string) []string {
 					v = kindOf(id.Name)
 				}
 			}
-			f["for-"+v] = true
+			switch {
+			case x.Cond == nil:
+				f["for-infinite"] = true
+			case x.Init == nil && x.Post == nil:
+				f["for-cond-only"] = true
+			default:
+				f["for-"+v] = true
+			}
 			if depth >= 1 {
 				f["nested"] = true
 			}
@@ -1080,7 +1104,23 @@ func features(src string) []string {
 			if p, ok := x.Post.(*ast.IncDecStmt); ok {
 				incdec(p, depth+1)
 			}
+			if p, ok := x.Post.(*ast.AssignStmt); ok {
+				f["for-post-assign"] = true
+				expr(p.Rhs[0])
+			}
+			loops = append(loops, x.Post != nil)
 			walk(x.Body.List, depth+1)
+			loops = loops[:len(loops)-1]
+		case *ast.BranchStmt:
+			switch x.Tok {
+			case token.BREAK:
+				f["break"] = true
+			case token.CONTINUE:
+				f["continue"] = true
+				if len(loops) > 0 && loops[len(loops)-1] {
+					f["continue-in-loop-with-post"] = true
+				}
+			}
 		}
 	}
 	walk = func(list []ast.Stmt, depth int) {
@@ -1212,6 +1252,9 @@ func part2(run *vlib.Run, bt *built) bool {
 	chp, chd := channelPrograms(run.Thorough())
 	progs = append(progs, chp...)
 	planDescr = append(planDescr, chd...)
+	lcp, lcd := loopCtlPrograms(run.Thorough())
+	progs = append(progs, lcp...)
+	planDescr = append(planDescr, lcd...)
 	stp, std := storagePrograms(run.Thorough())
 	progs = append(progs, stp...)
 	planDescr = append(planDescr, std...)
@@ -1406,6 +1449,7 @@ func part2(run *vlib.Run, bt *built) bool {
 	run.Set("part2_channel_family_oracles", fmt.Sprintf("(1) termination: every program is compiled under the gosched scheduler; a program all of whose explored compiler schedules (preemption bound 2, cap 600 runs) end with an empty enabled set is a proven hang and is re-run in a fresh process before it is reported; (2) %d independent compilations (separate processes, same compiler schedule) must emit identical assembly files and bondmachine JSON; (3) hardware execution is NOT available for this family: %d of %d generated multi-processor file sets elaborate under vsim (first diagnostic: %s; generator defects of chw/wrd/wwr and of the channel shared object, property C18); instead the emitted assembly of all processors is run on a multi-processor ISA model (rendezvous channels wired by Shared_links of the saved bondmachine, output ids from the requirements dump) and compared with a small-step go/ast reference evaluator with Go channel semantics, both run to quiescence (a BondMachine processor does not stop when main returns); every distinct compilation variant is checked", chanCompilations, chElab, chN, chNote))
 	run.Set("part2_channel_family", "uint8 (thorough: also uint16): {receive in a goroutine, in main, in an ordinary function} x {send in main, in an ordinary function, in a goroutine} (both ends in main excluded) x {no alias, c2 = c used by the sender, c2 = c used by the receiver}; pipeline main -> relay goroutine -> worker (2 channels, 2 goroutines); two independent channel/worker pairs; two messages on one channel; goroutine -> goroutine -> main; channel declared in a nested block; ordinary functions on two channels; make(chan T) (refused by the compiler: expected); thorough: the first four extras also with an aliased sender")
 	run.Set("part2_channel_expression_order_family", "producer goroutine sending 1,2,3,4 on one channel (prod) or 1,5,2,10 alternately on two channels a,b (prodtwo); main: v = 7; x = L op R; IOWrite(o0, x); x = L op R; IOWrite(o0, x) for all ordered pairs (L,R) of the operand forms {<-C, <-C*3, <-C+1, (<-C), take(C), 2, v} (two channels: L over a, R over b, L must communicate); op + : all pairs; op * : quick the pairs over {<-C, <-C*3, take(C), v}, thorough all pairs; uint8 (thorough also uint16); 2 compilations each; oracle: multi-processor ISA model vs go/ast evaluator performing the communications of an expression left to right, and termination; parenthesised operands are outside the compiler's subset (no ParenExpr in Expr_eval): rejected-as-expected")
+	run.Set("part2_loop_control_family", "break / continue: loops {for reg_b = 0; reg_b == 3 == false; reg_b++ | same with post reg_b = reg_b + 1 | for a = 3; a == 0 == false; a-- | for reg_b == 3 == false { reg_b++ ... } | for { reg_b++; if reg_b == 3 { break } ... }} x bodies {IOWrite(LV); IOWrite(LV) CV++; CV++ IOWrite(CV)} x a control statement `if C { continue }` / `if C { break }` with C in {LV == 1, LV == 1 == false} at every position of the body; the counter is written after the loop; nested: the 3-clause loop (assignment post) with a control inside an outer counting loop, and a control of the outer loop after the inner loop; thorough: also uint16 and the body IOWrite(LV) CV++ IOWrite(CV); sources that do not terminate are skipped")
 	run.Set("part2_storage_reuse_family", "1..2 outer memory variables; sibling constructs declaring k memory locals each (every local assigned a distinct constant and written to the output inside its block), outer variables written after them; two siblings, all (k1,k2) in 0..3: bare/bare, if reg_t == 1 {k1} else {k2}, bare block then k2 top level declarations (thorough: also if reg_t == 0, uint16); thorough: three siblings, all (k1,k2,k3) in 0..3: bare/bare/bare, if-else + bare, bare + if-else, bare/bare + declarations, uint8 and uint16")
 	run.Set("part2_shadowing_family", "block scoping: outer variable V (a = memory, reg_b = register), block kinds {bare, if body, else body, for body} x {redeclares V, does not} x PRE {V = 5 (thorough: also none)} x INNER = all sequences of 1..2 statements of {V = 1, V = V + 2, V++, IOWrite(o0, V)} x POST {IOWrite; V++ IOWrite (thorough: also V = V + 2 IOWrite; IOWrite V = 1 IOWrite)} (quick: the non-redeclaring control only for the bare block); two levels: block {[var V] s1 {[var V] s2 IOWrite} IOWrite} IOWrite with s1 in {V = 1, V++}, s2 in {V = 3, V = V + 2, V++}, all four redeclaration combinations (quick: outer block bare; thorough: all four kinds); 16 bit: bare and for body, redeclared, one inner statement")
 	run.Set("part2_bounds", "all canonical programs (last statement writes an output; no assignment that is immediately overwritten) with exactly `size` statements (nested ones counted) over the named statement alphabet: variables a (memory) and reg_b (register) of type uintN, assignments of constants / the other variable / + / * / bondgo.IORead / a function call, ++/--, bondgo.IOWrite to one or two outputs, if / if-else with == conditions, two bounded for loops; plus one program per binary operator the compiler refuses (- & | ^ / <<)")
